@@ -20,10 +20,10 @@ PID = 'C08'
 LEVEL = 'exploration'
 BUDGET_S = {'quick': 50, 'thorough': 700}
 FLOORS = {'quick': {'schedules': 1500, 'contended_schedules': 900, 'responses_judged': 5000, 'sweeps': 900,
-                    'single_fetch_checks': 2000, 'cross_block_probes': 60, 'stress_rounds': 6, 'fault_runs_three_or_more_on_one_meta_tile': 90,
+                    'single_fetch_checks': 2000, 'cross_block_probes': 60, 'stress_rounds': 6, 'thread_stress_rounds': 60, 'thread_stress_requests': 1200, 'fault_runs_three_or_more_on_one_meta_tile': 90,
                     'partial_meta_runs': 80},
           'thorough': {'schedules': 40000, 'contended_schedules': 25000, 'responses_judged': 150000, 'sweeps': 40000,
-                       'single_fetch_checks': 60000, 'cross_block_probes': 1500, 'stress_rounds': 120,
+                       'single_fetch_checks': 60000, 'cross_block_probes': 1500, 'stress_rounds': 120, 'thread_stress_rounds': 1100, 'thread_stress_requests': 22000,
                        'fault_runs_three_or_more_on_one_meta_tile': 2000, 'partial_meta_runs': 1800}}
 RULE = ("case = one forced schedule of 2-6 clients requesting the same tile / tiles of the same meta tile / tiles of "
         "two different meta tiles (TMS, tile_manager batches, WMS GetMap) on an empty cache, for one configuration "
@@ -31,7 +31,8 @@ RULE = ("case = one forced schedule of 2-6 clients requesting the same tile / ti
         "compared with NOISE + final cache sweeps + per-meta-tile fetch counts; distinct = (configuration, schedule "
         "trace); non-trivial = at least two clients were between their first cache read and their response at the same "
         "time. Plus 'cross-block probes' (client A is held inside the upstream, client B for another meta tile must "
-        "finish) and multi-process stress rounds with injected delays")
+        "finish), multi-process stress rounds with injected delays, and preemptive multi-thread stress rounds (3-6 real request "
+        "threads on one application, interpreter switch interval 1 microsecond)")
 ASSUMPTIONS = [
     "scheduling points: cache backend calls, FileLock open/flock/stat/close/remove/sleep, os.open/rename/unlink of "
     "write_atomic and the compact bundle code, upstream enter/return; python between them is atomic in cooperative mode",
@@ -377,6 +378,8 @@ def gen_cases(run):
         yield {'kind': 'sched', 'i': i}
     for i in range(run.pick(16, 320)):
         yield {'kind': 'stress', 'i': i}
+    for i in range(run.pick(160, 3000)):
+        yield {'kind': 'tstress', 'i': i}
 
 
 def record(run, case, one, spec, shape):
@@ -413,6 +416,8 @@ def record(run, case, one, spec, shape):
 def run_case(run, case):
     if case['kind'] == 'stress':
         return run_stress(run, case)
+    if case['kind'] == 'tstress':
+        return run_tstress(run, case)
     rng = run.rng('c', case['i'])
     spec = case.get('spec') or gen_conf(rng)
     # the grid is needed to plan clients: build a throw-away scenario cheaply via c04.build inside OneRun; plan from a grid object
@@ -559,6 +564,94 @@ def run_stress(run, case):
                            'meta': spec['cache']['meta_size'], 'mode': 'multiprocess_stress'},
                           dict(case, spec=spec), pdesc)
     finally:
+        shutil.rmtree(d, ignore_errors=True)
+
+
+# ---- preemptive multi-thread stress -------------------------------------------------------------------------------
+# Request threads of one process share the application objects (tile manager, meta grid, cache object, locker). The
+# cooperative scheduler only switches at the instrumented calls; here real threads run with a switch interval of one
+# microsecond, so the interpreter changes threads between almost any two bytecodes: in-memory state shared between
+# requests (memoised values, lazily created members) is exposed. Verdicts only from what is observable without timing:
+# every tile returned is the right picture, nothing raises, no upstream request is issued twice.
+
+def run_tstress(run, case):
+    import threading
+    import traceback
+    rng = run.rng('tstress', case['i'])
+    spec = case.get('spec') or gen_conf(rng)
+    spec['cache']['meta_buffer'] = 0
+    d = run.subdir('c08t')
+    up = upstream.install()
+    old_before, old_after = up.before, up.after
+    old_switch = sys.getswitchinterval()
+    try:
+        sc, grid, lat = c04.build(run, spec, d, name='mapproxy-t%d' % os.getpid())
+        tm = sc.tile_manager('c')
+        z = min(3, grid.levels - 1)
+        nx, ny = grid.grid_sizes[z]
+        coords = sorted(set((rng.randrange(nx), rng.randrange(ny), z) for _ in range(rng.randint(3, 6))))
+        nthreads = rng.randint(3, 6)
+        plans = [[rng.choice(coords) for _ in range(rng.randint(3, 6))] for _ in range(nthreads)]
+        delays = [rng.choice([0, 0, 0.0005, 0.002, 0.01]) for _ in range(64)]
+        n0 = len(up.log)
+
+        def before(call):
+            time.sleep(delays[call.n % len(delays)])
+        up.before, up.after = before, None
+        problems = []
+        plock = threading.Lock()
+        start = threading.Barrier(nthreads)
+
+        def client(k):
+            try:
+                start.wait(20)
+                for c in plans[k]:
+                    with tm.session():
+                        t = tm.load_tile_coord(tuple(c))
+                    if t.source is None:
+                        with plock:
+                            problems.append(('no_image', 'thread %d: no image for %r' % (k, c)))
+                        continue
+                    ok, detail, n, exact = c04.judge_tile(lat, tuple(c), t.source.as_image(), True)
+                    if not ok:
+                        with plock:
+                            problems.append(('wrong_image', 'thread %d tile %r: %s' % (k, c, detail)))
+            except BaseException as ex:   # noqa
+                with plock:
+                    problems.append(('exception', 'thread %d: %r %s' % (k, ex, traceback.format_exc()[-900:])))
+        sys.setswitchinterval(1e-6)
+        ths = [threading.Thread(target=client, args=(k,), name='tstress-%d' % k) for k in range(nthreads)]
+        for t in ths:
+            t.start()
+        hung = False
+        for t in ths:
+            t.join(90)
+            hung = hung or t.is_alive()
+        sys.setswitchinterval(old_switch)
+        if hung:
+            run.dc('thread_stress_round_cut_by_watchdog')
+            return
+        run.hit('thread_stress_rounds')
+        run.hit('thread_stress_requests', sum(len(p) for p in plans))
+        run.judge((spec['backend'], tuple(spec['cache']['meta_size']), spec['src_kind'], 'tstress', nthreads), nontrivial=True)
+        per = {}
+        for c in up.log[n0:]:
+            per[c.url] = per.get(c.url, 0) + 1
+        for url, n in per.items():
+            run.hit('single_fetch_checks')
+            if n > 1:
+                problems.append(('multiple_fetches', '%d identical upstream requests from threads of one process: %s' % (n, url[:200])))
+        seen = set()
+        for kind, pdesc in problems:
+            if kind in seen:
+                continue
+            seen.add(kind)
+            run.violation({'problem': kind, 'backend': spec['backend'], 'src': spec['src_kind'],
+                           'meta': spec['cache']['meta_size'], 'mode': 'thread_stress'},
+                          dict(case, spec=spec), '%s | plans %r' % (pdesc, plans))
+    finally:
+        sys.setswitchinterval(old_switch)
+        up.before, up.after = old_before, old_after
         shutil.rmtree(d, ignore_errors=True)
 
 
